@@ -83,8 +83,9 @@ pub fn decode_mutations(bytes: &[Word]) -> Result<Vec<Mutation>, MutationDecodeE
     // Saturating cast
     let len: usize = bytes[0].try_into().unwrap_or(usize::MAX);
 
-    // FIXME: Do a max size check to avoid a DoS attack that allocates too much memory.
-    let mut mutations = Vec::with_capacity(len);
+    // Every mutation takes at least two words, so the input bounds how many there can be:
+    // never allocate for more than that, whatever the claimed number.
+    let mut mutations = Vec::with_capacity(len.min(bytes.len() / 2));
     if len == 0 {
         return Ok(mutations);
     }
